@@ -22,8 +22,10 @@ RULE = ("per named curve: for every TLV node of every DER container the length-f
         "input is not accepted unchanged (a mutated or malformed encoding)")
 ASSUMPTIONS = [
     "documented set for the key loaders: UnexpectedDER, MalformedPointError, UnknownCurveError",
-    "square_root_mod_prime returns or raises SquareRootError (C15); Q = dG is a point with coordinates in [0, p-1] for "
-    "1 <= d < n (C07); base64.b64decode raises only binascii.Error — these are the hypotheses of the totality theorems",
+    "generic theorems: square_root_mod_prime returns or raises SquareRootError; Q = dG is a point with coordinates in "
+    "[0, p-1] for 1 <= d < n; base64.b64decode raises only binascii.Error. On the composed model (all_loaders_total_model) "
+    "the first two are discharged from C15.sqrt_spec and C07 (GroupInterface.mul, base-point order checked by the kernel); "
+    "what remains is: p and n prime for the curves of the table",
     "inputs are bytes (or str for the PEM loaders); other Python types are outside the property",
 ]
 DOCUMENTED = ("UnexpectedDER", "MalformedPointError", "UnknownCurveError")
